@@ -108,7 +108,7 @@ pub fn compare_position(p: &Pos, st: &mut Stats, src: &str, count: bool) -> Resu
 }
 
 pub fn run(run: &mut Run) -> &'static str {
-    let cases = run.tier.pick(160_000, 4_000_000);
+    let cases = run.tier.pick(480_000, 4_000_000);
     run.proptest_part("walks", RULE, pos_case(4..160), cases, |case: &PosCase, st: &mut Stats| {
         let ps = case.positions(Mix::General, 40, st);
         for (i, gp) in ps.iter().enumerate() {
